@@ -69,6 +69,9 @@ pub fn dispatch(op: &str, a: &[Val]) -> Option<Val> {
             let w2 = dec_date(a.get(2)?)?.week(dec_wd(a.get(3)?)?);
             Some(vtup(vec![vbool(w1 == w2), vbool(w1 != w2), vbool(h(&w1) == h(&w2))]))
         })(),
+        #[allow(deprecated)]
+        "d8.pnthwd" => (|| Some(enc_date(
+            NaiveDate::from_weekday_of_month(a.get(0)?.i32()?, a.get(1)?.u32()?, dec_wd(a.get(2)?)?, a.get(3)?.u8()?))))(),
         _ => return None,
     };
     Some(r.unwrap_or_else(bad))
